@@ -439,6 +439,11 @@ Definition resolve_numeric (c : cenv) (e : pexpr) : outcome Z :=     (* _resolve
     match v with
     | VBool b => Folded (if b then 1 else 0) | VInt z => Folded z | VFloat q => Folded (qtrunc q)
     | _ => Fallback end).
+(* sleep(e): ms = int(_eval_const(e)) inside try / except Exception - int() also accepts numeric strings *)
+Definition resolve_sleep (c : cenv) (e : pexpr) : outcome Z :=
+  if has_name e then Fallback else
+  catch_all (eval_const c e) (fun v =>
+    match cast n_int v with CVal (VInt z) => Folded z | COutOfModel => OutM | _ => Fallback end).
 Definition resolve_float (c : cenv) (e : pexpr) : outcome Q :=       (* _resolve_float_arg *)
   if has_name e then Fallback else
   catch_all (eval_const c e) (fun v =>
